@@ -70,11 +70,17 @@ package cmd
 //@   ensures errSeen(parsePackageNamespaces) ==> result1 != nil
 //@   ensures the_root_is_flattened_from_an_empty_list: !errSeen(parsePackageNamespaces) ==> calls(flattenNamespaces) == 1 && lastArg(flattenNamespaces, 0) == lastResult(parsePackageNamespaces).r0 && len(result0) == len(lastResult(flattenNamespaces)) && (forall j in 0..len(result0) :: result0[j] == lastResult(flattenNamespaces)[j])
 
+//@ observe-args cmd.parsePackageNamespaces
 //@ func parsePackageNamespaces
 //@   property C09,C11,C18
 //@   invariant 0: !errSeen(parsePackageNamespaces)
 //@   ensures parse_error_propagates: errSeen(dsl.ParsePackageContents) ==> result1 != nil
 //@   ensures import_error_propagates: errSeen(parsePackageNamespaces) ==> result1 != nil
+// Every import of a package becomes a reference of its namespace, whether the imported package was parsed before or not:
+// the references are what the generators import (Python) and what dependencies-first flattening walks.
+//@   ensures a_package_parsed_before_is_returned_as_it_is: old(p.Namespace in alreadyParsed) ==> result1 == nil && result0 == old(alreadyParsed[p.Namespace]) && !called(dsl.ParsePackageContents)
+//@   iteration 0: every_import_becomes_a_reference: calls(parsePackageNamespaces) == old(calls(parsePackageNamespaces)) + 1 && lastArg(parsePackageNamespaces, 0) == imp.Package && lastArg(parsePackageNamespaces, 1) == alreadyParsed
+//@   iteration 0: the_reference_is_appended: len(namespace.References) == old(len(namespace.References)) + 1 && namespace.References[len(namespace.References) - 1] == lastResult(parsePackageNamespaces).r0
 
 // Dependencies first: the namespaces reachable from ns that are not listed yet are returned as the lists of its
 // references, one after the other in the order of the import list, with ns itself last. dsl.Validate processes the
